@@ -94,7 +94,7 @@ theorem exec_runs (id : String) (now : Int)
     (exec sv id now).2 = Tok.arr (sv.conn id).queue.length ::
         (execOuts sv.store now (sv.conn id).queue).flatMap replyOf := by
   rw [exec_eq]; simp only
-  rw [if_neg (by simpa using hst), if_neg herr, if_neg (by simpa using hne), if_neg (by simp [hw])]
+  rw [if_neg (by simpa using hst), if_neg herr, if_neg (by simp [hw]), if_neg (by simpa using hne)]
   obtain ⟨h1, h2, _⟩ := execLoop_spec now (sv.conn id).queue
     (sv.setConn id { (sv.conn id) with state := (sv.conn id).state + multiCommit -
       (if ((sv.conn id).state / 2) % 2 = 1 then multiCommit else 0) }) [Tok.arr (sv.conn id).queue.length]
@@ -104,9 +104,10 @@ theorem exec_runs (id : String) (now : Int)
 
 theorem exec_empty (id : String) (now : Int)
     (hst : (sv.conn id).state % 2 = 1) (herr : ((sv.conn id).state / 4) % 2 ≠ 1)
+    (hw : (sv.conn id).watch.any (·.2) = false)
     (hq : (sv.conn id).queue = []) : exec sv id now = (resetConn sv id, [Tok.arr 0]) := by
   rw [exec_eq]; simp only
-  rw [if_neg (by simpa using hst), if_neg herr, if_pos (by simp [hq])]
+  rw [if_neg (by simpa using hst), if_neg herr, if_neg (by simp [hw]), if_pos (by simp [hq])]
 
 theorem exec_no_multi (id : String) (now : Int) (hst : (sv.conn id).state % 2 ≠ 1) :
     exec sv id now = (resetConn sv id, [Tok.err 0]) := by
@@ -121,16 +122,15 @@ theorem exec_aborted (id : String) (now : Int)
 
 theorem exec_watch_abort (id : String) (now : Int)
     (hst : (sv.conn id).state % 2 = 1) (herr : ((sv.conn id).state / 4) % 2 ≠ 1)
-    (hne : (sv.conn id).queue ≠ []) (hw : (sv.conn id).watch.any (·.2) = true) :
+    (hw : (sv.conn id).watch.any (·.2) = true) :
     exec sv id now = (resetConn sv id, [Tok.nullBulk]) := by
   rw [exec_eq]; simp only
-  rw [if_neg (by simpa using hst), if_neg herr, if_neg (by simpa using hne), if_pos (by simp [hw])]
+  rw [if_neg (by simpa using hst), if_neg herr, if_pos (by simp [hw])]
 
 /-- whenever a watch flag is set, EXEC has no effect on the store, whatever else holds -/
 theorem exec_flag_no_effect (id : String) (now : Int) (hw : (sv.conn id).watch.any (·.2) = true) :
     (exec sv id now).1.store = sv.store := by
   rw [exec_eq]; simp only
-  split; · exact resetConn_store _ _
   split; · exact resetConn_store _ _
   split; · exact resetConn_store _ _
   first
